@@ -15,7 +15,8 @@ package main
 //   <srv>_serveCounted     is the serve() goroutine itself counted in the WaitGroup (Add in Start)?
 //   <srv>_closeBeforeDone  the deferred function of startSession closes the connection before `wg.Done()`
 //   <srv>_startClosesListenerAfterDone   Start: `<-ctx.Done()` … `s.listener.Close()`
-//   <srv>_serveReturnsOnDone             serve: `case <-ctx.Done(): return` on a permanent Accept error
+//   <srv>_serveReturnsOnDone             serve: the path through `case <-ctx.Done():` on a permanent Accept error ends in
+//                                        `return` (inside the case, or as the statement the select rejoins at)
 //   <srv>_drainIsWait      Drain() blocks on `s.wg.Wait()` and on nothing else
 //   <srv>_handlerMentionsCtx   any identifier `ctx` / `context` / `Context` (or import "context") in handler.go
 //   hub_onCancel           what Hub.Start does in its `case <-ctx.Done():`  closesOpChan | closesDone | unknown
@@ -199,6 +200,18 @@ func sdSamePc(a, b []rtAtom) bool {
 }
 
 func sdPrefixPc(a, b []rtAtom) bool { return len(a) <= len(b) && sdSamePc(a, b[:len(a)]) }
+
+func sdSameLoops(a, b []ast.Stmt) bool {
+	if len(a) != len(b) {
+		return false
+	}
+	for i := range a {
+		if a[i] != b[i] {
+			return false
+		}
+	}
+	return true
+}
 
 // sdGoTarget: the package function a go statement runs: `go f(..)` / `go x.m(..)` directly, or the unique
 // package function called (lexically) inside `go func(..){..}(..)`.  Returns the function literal too.
@@ -537,6 +550,9 @@ func sdWgFacts(g *genFile, srv string) {
 	}
 	g.def(srv+"_startClosesListenerAfterDone", "Bool", shutLeanBool(scl), "Start receives from <context.Context parameter>.Done() as a statement and then, on the same path, calls Close() on the field Accept() is called on")
 
+	// serveReturnsOnDone: the EVENT PATH "ctx.Done() case taken -> return from the accept-loop function", however the
+	// statements are grouped: the return may stand inside the case, or the case may only log / be empty and the
+	// statement the select rejoins at (same path condition, same loop) is the return.
 	srd := false
 	if sv != nil {
 		for _, l := range sv.leaves {
@@ -549,8 +565,43 @@ func sdWgFacts(g *genFile, srv string) {
 				}
 			}
 		}
+		for i, l := range sv.leaves {
+			sel, ok := l.st.(*ast.SelectStmt)
+			if !ok {
+				continue
+			}
+			var done *ast.CommClause
+			for _, c := range sel.Body.List {
+				if cc := c.(*ast.CommClause); cc.Comm != nil && p.isDoneRecv(cc.Comm, l.env) {
+					done = cc
+				}
+			}
+			if done == nil || p.clauseEffect(done.Body, l.loops) != "fallsThrough" {
+				continue
+			}
+			// the first leaf after the select that is not inside one of its cases
+			for _, m := range sv.leaves[i+1:] {
+				inside := false
+				for _, a := range m.pc {
+					if a.comm != nil {
+						for _, c := range sel.Body.List {
+							if c == ast.Stmt(a.comm) {
+								inside = true
+							}
+						}
+					}
+				}
+				if inside {
+					continue
+				}
+				if rs, ok := m.st.(*ast.ReturnStmt); ok && m.owner == 0 && len(rs.Results) == 0 && sdPrefixPc(m.pc, l.pc) && sdSameLoops(m.loops, l.loops) {
+					srd = true
+				}
+				break
+			}
+		}
 	}
-	g.def(srv+"_serveReturnsOnDone", "Bool", shutLeanBool(srd), "the accept loop returns inside a select case receiving from <context.Context parameter>.Done()")
+	g.def(srv+"_serveReturnsOnDone", "Bool", shutLeanBool(srd), "the accept loop returns on the path through a select case receiving from <context.Context parameter>.Done(): the return stands in that case, or the case does nothing but log and the statement the select rejoins at is the return")
 
 	diw := false
 	if drain != nil {
